@@ -30,10 +30,7 @@ TRUSTED = [
     "argument of MailboxForAddress, and StoreManager.MailboxForAddress is recognised syntactically as `return s.AddrPolicy.ExtractMailbox(x)`",
 ]
 ASSUMPTIONS = ["config.Root.MailboxNaming is one of local/full/domain (config.Process admits nothing else)"]
-NOT_PROVED = [
-    "plus_insensitive_any_stmt (Proofs/AddrPlus.v): +extension insensitivity for EVERY l, e, d (at signs inside l, quoting inside the "
-    "extension); proved is the case 'l holds no at sign, extension unquoted' (plus_insensitive); the oracle checks the general clause on all generated pairs",
-]
+NOT_PROVED = []
 KNOWN_MUST_REPRODUCE = True
 
 
